@@ -7,6 +7,8 @@ import specs.violation as violation
 import specs.invariants as invariants
 import specs.decorate as decorate
 import specs.theorems as theorems
+import specs.types as types
+import specs.decorators as decorators
 from specs.lib import REG
 
 
@@ -20,6 +22,11 @@ U.update(_by_addr(tr.TRACE_SPECS))
 U.update(_by_addr([binding.KFC, wrapper.UNPACK] + wrapper.WRAPPERS))
 U.update(_by_addr(invariants.INV_SPECS + invariants.INV_WRAPPERS))
 U.update(_by_addr([decorate.RKD, decorate.DWC]))
+U.update(_by_addr(types.TYPE_SPECS + [decorators.FIND_CHECKER] + decorators.ADD_SPECS + decorators.INIT_SPECS + decorators.CALL_SPECS))
+DEFN_CONE = ["Contract.__init__", "Invariant.__init__", "Snapshot.__init__", "find_checker", "add_precondition_to_checker",
+             "add_postcondition_to_checker", "add_snapshot_to_checker", "require.__init__", "ensure.__init__", "invariant.__init__",
+             "snapshot.__init__", "require.__call__", "ensure.__call__", "snapshot.__call__", "decorate_with_checker", "resolve_kwdefaults"]
+DEFN_UNITS = set(DEFN_CONE)
 
 CHECKER_CONE = [
     "_assert_no_invalid_kwargs", "_assert_resolved_kwargs_valid", "select_condition_kwargs", "select_capture_kwargs",
@@ -41,6 +48,13 @@ WRAPPERS6 = ["decorate_with_checker/wrapper[sync]", "decorate_with_checker/wrapp
              "_decorate_with_invariants/wrapper[1]", "_decorate_with_invariants/wrapper[2]", "_decorate_new_with_invariants/wrapper"]
 
 PROPS = {
+    "C09": dict(units=CHECKER_CONE + ["_assert_invariant", "Contract.__init__", "Invariant.__init__", "require.__init__", "ensure.__init__",
+                                      "invariant.__init__"], replay="call", hints=["falsy_error", "error_argument"]),
+    "C15": dict(units=DEFN_CONE + CHECKER_CONE + INV_CONE, theorems=[theorems.verify_SLOW], replay="defn", hints=["disabled"]),
+    "C19": dict(units=["decorate_with_checker", "decorate_with_checker/wrapper[sync]", "decorate_with_checker/wrapper[async]",
+                       "_assert_no_invalid_kwargs", "_assert_resolved_kwargs_valid", "invariant.__init__", "require.__init__", "ensure.__init__",
+                       "Snapshot.__init__", "snapshot.__init__", "snapshot.__call__", "add_snapshot_to_checker", "Contract.__init__", "Invariant.__init__"],
+                replay="defn", hints=["reserved", "misuse", "snapshot", "error_argument"]),
     "C12": dict(units=WRAPPERS6, replay="ctx", hints=[], level="other",
                 explanation="Deductive verification does not range over schedules. Proved for all six wrappers, for every path: (O1) the "
                 "wrapper writes no shared state other than the binding of the context variable (frame over every heap field); (O2') it "
